@@ -12,7 +12,8 @@ ASSUMPTIONS = ["lru_time_cache: with_expiry_duration has unbounded capacity; ent
 
 ALLOWED = {"lru_time_cache::LruCache::<Key, Value>::with_expiry_duration",
            "lru_time_cache::LruCache::<Key, Value>::entry",
-           "lru_time_cache::Entry::<'a, Key, Value>::or_insert"}
+           "lru_time_cache::Entry::<'a, Key, Value>::or_insert",
+           "lru_time_cache::Entry::<'a, Key, Value>::or_insert_with"}
 
 
 def check(env, rep, tier):
@@ -71,4 +72,5 @@ def check(env, rep, tier):
                    sample={"rule": "C20.2", "api": p, "sites": len(sites)})
         rep.ob("C20.2", "entry-used", "lru_time_cache::LruCache::<Key, Value>::entry" in used,
                "no LruCache::entry call found: the state lookup mechanism is gone", site)
-        rep.floor("C20.2", "entry().or_insert() lookups", len(used.get("lru_time_cache::Entry::<'a, Key, Value>::or_insert", [])), 2)
+        rep.floor("C20.2", "entry().or_insert() lookups", len(used.get("lru_time_cache::Entry::<'a, Key, Value>::or_insert", []))
+                  + len(used.get("lru_time_cache::Entry::<'a, Key, Value>::or_insert_with", [])), 2)
